@@ -405,6 +405,21 @@ def run_check(prop, tier, seed, replay=None):
                     discharged += 1
             cov_groups.append({"probe": "race-detector", "cases": len(rcases), "exhaustive": False, "disagreements": 0,
                                "monitor_rejections": max(nrep, 0), "wall_s": round(time.time() - t0, 1), "signature_histogram": {}})
+        # facts read off the source text (a second, static tie for rarely reached branches)
+        if replay is None and hasattr(prop, "static_facts") and ok:
+            obligations += 1
+            t0 = time.time()
+            nfacts, findings = prop.static_facts()
+            total_eval += nfacts
+            for kind, name, text in findings[:3]:
+                path = os.path.join(ROOT, "replays", "%s-static-%s.txt" % (pid, sha(name + text)))
+                open(path, "w").write(text + "\n")
+                violations.append((kind, path, name))
+            if not findings:
+                discharged += 1
+            cov_groups.append({"probe": "static/source-facts", "cases": nfacts, "exhaustive": True, "disagreements": sum(1 for f in findings if f[0] == "corr"),
+                               "monitor_rejections": sum(1 for f in findings if f[0] == "viol"), "wall_s": round(time.time() - t0, 1),
+                               "signature_histogram": {}})
         if proof_bad:
             path = os.path.join(ROOT, "replays", "%s-proof.txt" % pid)
             open(path, "w").write("proof step of %s failed:\n%s\n" % (pid, "\n".join(proof_bad)))
